@@ -266,6 +266,9 @@ func (e *Exec) c64(v int64) *Term { return e.st.Const(64, uint64(v)) }
 func (e *Exec) havoc(t types.Type, name string) Value {
 	switch u := t.Underlying().(type) {
 	case *types.Basic:
+		if u.Kind() == types.String || u.Kind() == types.UnsafePointer {
+			return e.zero(t)
+		}
 		w, _, ok := intWidth(t)
 		if !ok {
 			e.unsupported("havoc of " + t.String())
@@ -286,6 +289,21 @@ func (e *Exec) havoc(t types.Type, name string) Value {
 			a.e[i] = e.havoc(u.Elem(), fmt.Sprintf("%s[%d]", name, i))
 		}
 		return a
+	case *types.Slice:
+		// integer slices: arbitrary length 0..4 and contents; other slices stay nil
+		if ew, ok := intElemWidth(t); ok {
+			n := e.st.Var(name+".len", 64)
+			e.Assume(e.st.Cmp(OpUle, n, e.c64(4)), "havoc: slice length 0..4")
+			o := e.newObj(&BytesV{arr: e.st.Var(name, ArrSort(64, ew)), n: -1}, "havoc slice")
+			return &SliceV{obj: o, off: e.c64(0), len: n, cap: n}
+		}
+		return e.zero(t)
+	case *types.Pointer, *types.Interface, *types.Map, *types.Signature, *types.Chan:
+		// left at the zero value (not modelled as arbitrary)
+		return e.zero(t)
+	}
+	if b, ok := t.Underlying().(*types.Basic); ok && b.Kind() == types.String {
+		return e.zero(t)
 	}
 	e.unsupported("havoc of " + t.String())
 	return nil
